@@ -11,6 +11,7 @@ var stdAssumptions = []string{
 // expectedReach lists, per property, the reach counters that a healthy run of
 // the check should see above zero; those at zero are reported as blind spots.
 var expectedReach = map[string][]string{
+	"C05": {"program.generated", "program.corpus", "wires>65535"},
 	"C20": {"scenario.vole.Mul", "vole.multi-chunk", "vole.repeated-mul-on-one-instance"},
 	"C15": {"sender-aborted-on-tampering", "honest-accepted", "accepted-with-intact-correlation(unselected column or padding row or response-only)"},
 	"C06": {"kind.CO", "kind.RSA-1024", "kind.COT", "kind.COT-malicious", "kind.ROT", "kind.ROT-malicious", "batch.n%8!=0", "batch.n%64!=0,n>64", "batch.multi-chunk", "batch.repeated-on-one-instance"},
@@ -21,6 +22,12 @@ var expectedReach = map[string][]string{
 }
 
 var props = map[string]propCfg{
+	"C05": {
+		Quick: 30 * time.Second, Thorough: 12 * time.Minute, Level: "exploration",
+		Rule:        "one case = one seeded streaming session compiler.Stream vs circuit.StreamEvaluator over two p2p.Conn on a simulated pipe; program drawn from testsuite/lang + examples (1/4) or from the MPCL generator (typed straight-line/branching/loop programs over arithmetic, comparisons, constant shifts, casts, arrays, slices, array updates, copy, unsized main arguments instantiated from input sizes, declared-but-unassigned variables, aliasing chains; 1/12 of them with >65535 live wires); inputs zero/ones/random; OT in {CO, COT, COT-malicious}; capacity, fragmentation, latency, schedule from the tape; oracle differential: garbler == evaluator (values and output types) == whole compiled circuit evaluated by the harness truth-table evaluator; programs that do not compile or have unsupported argument types are discarded and counted; non-trivial = more than 2 task switches; distinct = distinct SHA-256 of the event log",
+		Components:  map[string]string{"compiler (parse, SSA, Stream), ssa.Program.Stream, circuit.StreamEvaluator/stream_garble, p2p.Conn, ot.*": "real code", "reference": "compiler.Compile of the same source (real code) evaluated by the harness truth-table evaluator", "transport": "simulated pipe"},
+		Assumptions: stdAssumptions,
+	},
 	"C20": {
 		Quick: 20 * time.Second, Thorough: 8 * time.Minute, Level: "exploration",
 		Rule:        "one case = one seeded two-task session over p2p.Conn on a simulated pipe: vole.NewSender/NewReceiver + 1..3 Mul calls (vector lengths from {1,2,7..9,63..65,511..513,1023..1025,2000,random<=2000}; moduli P-256 prime, 2^255-19, 2^256-189, P-224 prime, 2, 3, 65537, random odd <=256 bits; elements 0, 1, p-1, random), or 1..6 bmr.FxSend/FxReceive or FxkSend/FxkReceive over CO/COT/COT-malicious for all (a,b) and random/zero strings; capacity, fragmentation, latency and schedule from the tape; oracle = math/big reference; non-trivial = more than 2 task switches; distinct = distinct SHA-256 of the event log",
